@@ -303,6 +303,9 @@ class Trench:
         polygon_list = [self.block]
 
         for _ in range(self.num_insets):
+            if not polygon_list:
+                # thin blocks are consumed by the contours before all the turns are done
+                break
             current_poly = polygon_list.pop(0)
             if not current_poly.is_empty:
                 polygon_list.extend(self.buffer_polygon(current_poly, offset=-np.fabs(self.delta_floor)))
@@ -310,7 +313,11 @@ class Trench:
                 yield np.array(current_poly.exterior.coords).T
 
         for poly in polygon_list:
-            yield self.zigzag(poly.buffer(1.05 * self.delta_floor))
+            if poly.is_empty:
+                continue
+            hatching = self.zigzag(poly.buffer(1.05 * self.delta_floor))
+            if hatching.size:
+                yield hatching
 
     @staticmethod
     def buffer_polygon(shape: geometry.Polygon, offset: float) -> list[geometry.Polygon]:
